@@ -143,6 +143,27 @@ def build(variant):
         o = pyrtl.Output(2, 'o')
         o <<= acc
         return pyrtl.working_block()
+    elif variant == 'mems_init':
+        # several writable memories, each given non-default initial contents by the simulation
+        a = pyrtl.Input(2, 'a')
+        d = pyrtl.Input(4, 'd')
+        we = pyrtl.Input(1, 'we')
+        for i, nm in enumerate(['ma', 'mb', 'mc', 'md', 'me', 'mf']):
+            m = pyrtl.MemBlock(4, 2, nm, asynchronous=True)
+            m[a] <<= pyrtl.MemBlock.EnabledWrite((d + i)[:4], we)
+            o = pyrtl.Output(4, 'o%d' % i)
+            o <<= m[a]
+        return pyrtl.working_block()
+    elif variant == 'regs_same_next':
+        # registers fed by ONE next-state wire but reset to different values (no pass may merge them)
+        i0 = pyrtl.Input(4, 'i0')
+        nxt = i0 + 1
+        for i, nm in enumerate(['ra', 'rb', 'rc', 'rd', 're']):
+            r = pyrtl.Register(4, nm, reset_value=(3 * i + 1) % 16)
+            r.next <<= nxt[:4]
+            o = pyrtl.Output(4, 'o_' + nm)
+            o <<= r
+        return pyrtl.working_block()
     elif variant == 'outs_tie':
         i0 = pyrtl.Input(2, 'i0')
         for n_, nm in enumerate(['o1', 'o01', 'o001', 'o0001', 'p1', 'p01']):
@@ -171,10 +192,18 @@ def digest(variant, k):
     rnd = random.Random(5)
     ins = sorted(block.wirevector_subset(pyrtl.Input), key=lambda w: w.name)
     steps = [{w.name: rnd.getrandbits(w.bitwidth) for w in ins} for _ in range(4)]
-    sim = pyrtl.Simulation(tracer=pyrtl.SimulationTrace(block=block), block=block)
+    def mvm(b):
+        # non-default initial contents for every writable memory (by name, in name order)
+        mems = sorted((m for m in set(n.op_param[1] for n in b.logic_subset('m@'))
+                       if not isinstance(m, pyrtl.RomBlock)), key=lambda m: (m.name, m.id))
+        return {m: {0: (3 * i + 1) % (1 << m.bitwidth), (1 << m.addrwidth) - 1: (5 * i + 2) % (1 << m.bitwidth)}
+                for i, m in enumerate(mems)}
+    sim = pyrtl.Simulation(tracer=pyrtl.SimulationTrace(block=block), block=block, memory_value_map=mvm(block))
     for s in steps:
         sim.step(s)
     tr = sim.tracer
+    outs = sorted(w.name for w in block.wirevector_subset(pyrtl.Output))
+    out['outputs'] = json.dumps({n: list(tr.trace[n]) for n in outs})
     out['trace'] = json.dumps({k_: list(v) for k_, v in sorted(tr.trace.items())})
     for add_reset in (True, False, 'asynchronous'):
         f = io.StringIO()
@@ -192,7 +221,28 @@ def digest(variant, k):
     f = io.StringIO()
     tr.print_trace(f, base=16, compact=True)
     out['print_trace_compact'] = f.getvalue()
-    return {k_: hashlib.sha256(v.encode()).hexdigest()[:16] for k_, v in out.items()}, out
+    # transformation passes: internal names may differ between runs, behaviour may not (nor from the source)
+    if not variant.startswith('{') or json.loads(variant).get('name') != 'rand_design':
+        for pname, fn in (('optimize', lambda b: pyrtl.optimize(block=b)),
+                          ('synthesize', lambda b: pyrtl.synthesize(block=b))):
+            b2 = build(variant)
+            try:
+                fn(b2)
+                s2 = pyrtl.Simulation(tracer=pyrtl.SimulationTrace(block=b2), block=b2)
+                for st_ in steps:
+                    s2.step(st_)
+                got = json.dumps({n: list(s2.tracer.trace[n]) for n in outs})
+            except pyrtl.PyrtlError as e:
+                got = 'PyrtlError'
+            b0 = build(variant)
+            s0 = pyrtl.Simulation(tracer=pyrtl.SimulationTrace(block=b0), block=b0)
+            for st_ in steps:
+                s0.step(st_)
+            ref = json.dumps({n: list(s0.tracer.trace[n]) for n in outs})
+            out['outputs_after_%s' % pname] = got
+            out['%s_preserves_outputs' % pname] = str(got == ref or got == 'PyrtlError')
+    return {k_: (v if k_.endswith('_preserves_outputs') else hashlib.sha256(v.encode()).hexdigest()[:16])
+            for k_, v in out.items()}, out
 
 
 def readonly(design):
